@@ -6,20 +6,20 @@ BASE = "for m in gnark-plonky2-verifier; do (cd /repo/$m && GOFLAGS=-mod=mod go 
 claimed = {
  "C01": ("structural necessary conditions only (level other): wiring of the entry points (must-call with the circuit's own fields), every input leaf bound (T2 leaf liveness generated from the types: each leaf reaches a must-executed constraint with full loop coverage or is observed by the transcript), plus the obligations of C11 C12 C13 C14 C16 C17 and C20's guards. Does not decide that the verification equations are the right polynomials.",
          "E2 must-call + leaf-liveness over the SSA origin/dependency analysis", "§4 C01"),
- "C02": ("partial (level other): W3 alignment of every constant width reaching the range primitive and, for every common_circuit_data.json in the repository, of 64-ProofOfWorkBits; C06's dispatch/constructor obligations (no backend skips or mis-selects checks); W2 honest-fit of the reduction sites by interval evaluation where the engine can bound them. Acceptance of concrete proofs is not decided (needs evaluation).",
-         "interprocedural constant propagation of widths + enum-dispatch path analysis + interval bounds", "§4 C02"),
+ "C02": ("partial (level other): W3 alignment of every constant width reaching the range primitive and, for every common_circuit_data.json in the repository, of 64-ProofOfWorkBits; C06's dispatch/constructor obligations (no backend skips or mis-selects checks); W2 honest fit by a magnitude analysis of the gadget layer (abstract interpretation over upper bounds: every reduction input below p·2^n in every calling context, every MulAdd/Inverse operand canonical, no intermediate value reaches the BN254 field, upper-layer functions exchange canonical values only), for all configurations and proof shapes under the assumption that proof data and constants are canonical; the sponge keeps previous lanes on a partial chunk (97-input circuit). That the algebraic identities hold for honest proofs (acceptance itself) is not decided.",
+         "interprocedural constant propagation of widths + enum-dispatch path analysis + abstract interpretation of magnitudes (intervals, constant propagation, Kleene iteration with widening)", "§4 C02 / §10.10"),
  "C03": ("strong structural claim (level other): in CircuitFixed.Define every limb packed into a public value is, by the same slice element, the argument of a must-executed n-bit range check with 2^n ≤ the packing multiplier (evaluated as a linear form), all 4×4 limbs are covered under the refusal guard len==16, each public value is asserted equal to its packed form, and the packed bound is < 2^128; plus C06 (the width checks are live in every backend: dispatch, deferred drain, the collecting chip is never updated through a copy).",
          "linear-form evaluation of the packing expression + must-execute/loop-coverage analysis", "§4 C03"),
  "C04": ("strong structural claim (level other): for every type implementing frontend.Circuit whose Define reaches VerifierChip.Verify, the verifier-data argument originates from a field whose gnark visibility (struct tag parsed as gnark's schema walker does) is '-' (build-time constant) or public; a secret field is accepted only if pinned leaf-by-leaf to a constant field.",
          "struct-tag / origin analysis over go/types + SSA", "§4 C04"),
- "C05": ("R1 hint discipline for every NewHint site + W1 no-wrap of each tying equality per reaching quotient width + W3 + C06 (level other). Decides uniqueness of witnessed results structurally; operand magnitudes at every reduction site (W2) only where listed.",
+ "C05": ("R1 hint discipline for every NewHint site + W1 no-wrap of each tying equality per reaching quotient width + W3 + C06 (level other). Decides uniqueness of witnessed results structurally; operand magnitudes at every reduction site by the magnitude analysis W2 (values reduced below p·2^n and below the BN254 field in every calling context, §10.10).",
          "must-execute + origin analysis of hint outputs; polynomial bound evaluation; interprocedural constant propagation", "§4 C05"),
  "C06": ("strong structural claim (level other): enum-dispatch path analysis for every RangeCheckerType constant, constructor paths (Defer iff COMMIT, every kind whose checks are collected has its drain deferred, installed checker matches kind, selector conditions), the chip owning the collected checks is never updated through a copy (value receivers / dereferences located on the SSA), drain coverage and alignment refusals, bit-decomposition width, RangeCheck limb rules (linear forms). Ranges are not evaluated numerically.",
          "CFG path analysis per enum constant + linear-form evaluation + loop coverage", "§4 C06"),
  "C07": ("narrow structural clauses only (level other): zero branch of Inverse, Reduce's constant width ≥144 from a never-reassigned global, every reducing method returns a canonically range-checked hint output; MulAcc accumulator discipline (owned and dead after the call) at every MulAcc site of the goldilocks package, so results do not depend on the R1CS builder re-using storage. Numerical exactness is not decided.",
          "expression-shape matching + origin analysis + ownership/liveness analysis of MulAcc accumulators", "§4 C07 / §10.8"),
- "C08": ("narrow structural clauses only (level other): InverseExtension asserts the product of both coordinates' zero tests is 0; DivExtension forwards its divisor to it. Field identities are not decided.",
-         "expression-shape matching + must-call", "§4 C08"),
+ "C08": ("narrow structural clauses only (level other): InverseExtension asserts the product of both coordinates' zero tests is 0; DivExtension forwards its divisor to it; every quotient width reaching the witnessed reduction admits a single result (W1) with R1; the unreduced intermediate values of the extension operations fit their reduction and never reach the BN254 field in any calling context (magnitude analysis W2). Field identities are not decided.",
+         "expression-shape matching + must-call + abstract interpretation of magnitudes", "§4 C08 / §10.10"),
  "C09": ("narrow structural clauses only (level other): inputs reduced first (full-range loop, only reduction results reach the sponge); permutation is a function (R1/W1 of the s-box reductions); sibling constant tables agree and are canonical; the sponge absorbs in overwrite mode and squeezes from the rate part only (loop bounded by SPONGE_RATE). Equality with plonky2 for all inputs is not decided.",
          "origin analysis + constant-table comparison from type-checked syntax", "§4 C09"),
  "C10": ("narrow structural clauses only (level other): the injectivity half of the property — limb packing in HashNoPad/HashOrNoop is Σ limb_k·base^k with constant base ≥ 2^64, exponent = limb index, bounded limb count with base^T ≤ r; ToVec chunks the canonical decomposition into consecutive disjoint ≤63-bit chunks; MulAcc accumulator discipline at every MulAcc site of the poseidon package (builder-independent results). Numeric agreement of the BN254 Poseidon permutation/sponge/shortcut with the reference PoseidonBN128 is NOT decided (no sound static argument in reach).",
